@@ -1267,6 +1267,16 @@ impl TransactionalMemory {
         Ok(file_len == state.header.layout().len())
     }
 
+    // True if the in-memory layout is not the one recorded in the on-disk header. A transaction
+    // that grew the file and then rolled back leaves the larger layout for the next commit to
+    // record; until then the header on disk describes a shorter file than this process made.
+    pub(crate) fn unpersisted_layout_change(&self) -> Result<bool, DatabaseError> {
+        let header_bytes = self.storage.read_direct(0, DB_HEADER_SIZE)?;
+        let disk_header = UnrepairedDatabaseHeader::from_bytes(&header_bytes, self.page_size)?;
+        let state = self.state.lock().unwrap();
+        Ok(!disk_header.stored_layout_matches(&state.header.layout()))
+    }
+
     // True if the on-disk durable primary slot's checksum is corrupt. Read from disk, since the
     // in-memory copy of an originally-clean slot wouldn't show external/failed-commit corruption.
     pub(crate) fn durable_primary_slot_corrupt(&self) -> Result<bool, DatabaseError> {
